@@ -86,7 +86,9 @@ class Decl:
             props = {}
             for pn in r.sample(PNAMES, r.randint(1, 3)):
                 sig = r.choice(list(VALUES))
-                access = r.choice(['read', 'read', 'readwrite', 'readwrite', 'write'])
+                # 'none': declared neither readable nor writable (DBus has no such access mode; what a remote Get sees is
+                # left open here, but it is certainly not writable)
+                access = r.choice(['read', 'read', 'readwrite', 'readwrite', 'write', 'none'])
                 emits = r.choice([True, True, False, 'invalidates'])
                 props[pn] = (sig, access, emits)
             decl.append((name, props))
@@ -128,7 +130,7 @@ class Decl:
 
         def build(cname, base, ifs, hosted):
             attrs = {'dbusInterfaces': [
-                I.DBusInterface(n, *([I.Property(pn, sig, readable=acc != 'write', writeable=acc != 'read',
+                I.DBusInterface(n, *([I.Property(pn, sig, readable=acc not in ('write', 'none'), writeable=acc not in ('read', 'none'),
                                                  emitsOnChange=em) for pn, (sig, acc, em) in props.items()] +
                                      ([I.Method('Touch')] if n == touch_iface else [])),
                                 noRegister=True) for n, props in ifs]}
@@ -371,10 +373,12 @@ def run_case(ctx, seed, idx):
                             ctx.report('get-empty-interface', "Get('', %s) returned %r, not the value of any readable "
                                        'property of that name' % (pn, var), w, case)
                             return
-                    elif len(cands) == 1 and readable:
+                    elif len(cands) == 1 and readable and d.props[cands[0]][1] != 'none':
                         ctx.report('get-empty-interface', "Get('', %s) failed although exactly one readable property has "
                                    'that name' % pn, w, case)
                         return
+                    continue
+                if access == 'none' and not expect_err:
                     continue
                 if expect_err or access == 'write':
                     if m.mtype != RM.ERROR:
@@ -412,7 +416,7 @@ def run_case(ctx, seed, idx):
                     ctx.report('reply-count', 'Set got %d replies' % len(reps), w, case)
                     return
                 m = reps[0]
-                should_fail = wrong or access == 'read'
+                should_fail = wrong or access in ('read', 'none')
                 if should_fail:
                     if m.mtype != RM.ERROR:
                         ctx.report('set-not-refused', 'Set(%s, %s) succeeded on a %s' % (
@@ -459,7 +463,10 @@ def run_case(ctx, seed, idx):
                     ctx.report('getall-failed', 'GetAll(%s) failed: %r' % (iface, m.body), w, case)
                     return
                 want = {pn: norm(model[(n, pn)]) for (n, pn), spec in d.props.items() if n == iface and spec[1] != 'write'}
-                if not R.plain_eq(m.body[0], want):
+                undecided = {pn for (n, pn), spec in d.props.items() if n == iface and spec[1] == 'none'}
+                got_ = {k_: v_ for k_, v_ in m.body[0].items() if k_ not in undecided}
+                want = {k_: v_ for k_, v_ in want.items() if k_ not in undecided}
+                if not R.plain_eq(got_, want):
                     split_ = d.split and d.split[1] == iface and set(m.body[0]) < set(want)
                     ctx.report('getall-split-hierarchy' if split_ else 'getall-content',
                                'GetAll(%s) returned %r, readable properties are %r%s' % (
